@@ -278,6 +278,9 @@ def check_C02(tier, seed, res, replay=None):
         A, alpha = gen.rand_ta(rng)
         B, _ = gen.rand_ta(rng, alpha=alpha)
         cases += c02_variants({"id": ["r", i], "A": A, "B": B, "src": "random"}, rng)
+    for k in load_killers("isect.ndjson"):
+        for _ in range(2):
+            cases += c02_variants(k, rng)
     res.count_cases(cases, nontrivial_both_nonempty)
     res.add_samples([c for c in cases if nontrivial_both_nonempty(c)][:3])
     run_events(res, rd, "c02", cases)
@@ -310,6 +313,11 @@ def check_C02(tier, seed, res, replay=None):
         v = vlib.tlc_validate("TraceTA.tla", [ef])
         res.add_validation(v)
         res.report_fails(v["fails"], os.path.join(vlib.OUT, "viol"))
+    # Layer 2: both intersections as work-list machines (top-down from final pairs, bottom-up from leaf pairs with the
+    # enter-check-erase treatment of the parent pair), every pair of automata of the bound, every pop order
+    q = "" if tier == "thorough" else "_q"
+    model_with_mutants(res, "Product.tla", "Product_bu%s.cfg" % q, ["SelfLoopAlways", "FinalAtLeavesOnly"] if tier == "thorough" else [], "Product")
+    model_with_mutants(res, "Product.tla", "Product_td%s.cfg" % q, ["FirstFinalOnly", "PushNever"] if tier == "thorough" else [], "Product")
 
 
 # ---------------------------------------------------------------------------------------- C03
